@@ -67,6 +67,7 @@ type op struct {
 	faultable  bool
 	target     *thread // join
 	pos        string  // source position (file:line) when known
+	sym        *SymTok // spawn: the loop instance of an interchangeable-worker spawn site (nil: ordinary spawn)
 }
 
 type object struct {
@@ -108,7 +109,16 @@ type thread struct {
 	steps     int
 	signalled bool   // cond: woken by Signal/Broadcast
 	sigVC     vclock // clock of the signaller
+	// symmetry reduction (Config.Symmetry)
+	sym      bool    // the thread is one of a class of interchangeable workers: its id is not part of any hash
+	symTok   *SymTok // as a parent: the loop instance whose class is open
+	symBase  uint64  // as a parent: the initial hash shared by the children of the open class
+	symClean bool    // as a parent: nothing but spawn / WaitGroup.Add since the class was opened
 }
+
+// SymTok identifies one execution of a loop that spawns interchangeable workers
+// (the instrumenter declares one before such a loop and passes its address to SpawnSym).
+type SymTok struct{ _ byte }
 
 // Handle identifies a spawned thread.
 type Handle struct{ t *thread }
@@ -308,6 +318,36 @@ func Spawn() Handle {
 	child := &thread{wake: make(chan struct{}, 1), ended: make(chan struct{}), id: -1}
 	x.park(t, &op{kind: opSpawn, target: child, pos: caller(2)}, false)
 	return Handle{child}
+}
+
+// SpawnSym is Spawn for a go statement the instrumenter has shown to start
+// interchangeable workers: a function literal without arguments inside a loop,
+// none of whose free variables is declared inside that loop, so that every
+// iteration starts the same code over the same environment.  tok identifies
+// the loop instance.  With Config.Symmetry the children of one instance,
+// spawned by one parent that did nothing in between but spawn and
+// WaitGroup.Add (no acquire: every child starts with the same knowledge),
+// get the same initial hash and their ids stay out of all hashes, so states
+// that differ only by a permutation of such workers share a key.
+func SpawnSym(tok *SymTok) Handle {
+	x, t := self()
+	if x == nil {
+		return Handle{}
+	}
+	child := &thread{wake: make(chan struct{}, 1), ended: make(chan struct{}), id: -1}
+	x.park(t, &op{kind: opSpawn, target: child, pos: caller(2), sym: tok}, false)
+	return Handle{child}
+}
+
+// GoSym is Go for hand-written drivers and toys whose workers are interchangeable.
+func GoSym(tok *SymTok, f func()) Handle {
+	h := SpawnSym(tok)
+	go func() {
+		defer End(h)
+		Begin(h)
+		f()
+	}()
+	return h
 }
 
 // Begin is the first call of a spawned goroutine.
@@ -882,10 +922,40 @@ func (x *exec) enabled() []trans {
 	return out
 }
 
+// childHash is the initial hash of the thread spawned by operation o of t.
+// Children of one open symmetry class share it; commit opens a class.
+func (x *exec) childHash(t *thread, o *op, commit bool) (uint64, bool) {
+	if !x.ex.Cfg.Symmetry || o.sym == nil {
+		return mix(t.hash, 0x5a, uint64(t.steps)), false
+	}
+	if t.symTok == o.sym && t.symClean {
+		return mix(t.symBase, 0x5b), true
+	}
+	base := mix(t.hash, 0x5a, uint64(t.steps))
+	if commit {
+		t.symTok, t.symBase, t.symClean = o.sym, base, true
+	}
+	return mix(base, 0x5b), true
+}
+
+// tid is what stands for the thread's identity inside hashes.
+func (x *exec) tid(t *thread) uint64 {
+	if t.sym {
+		return 0xfffff
+	}
+	return uint64(t.id)
+}
+
 // apply performs the bookkeeping of a transition and releases its thread(s).
 func (x *exec) apply(tr trans) {
 	t := tr.t
 	o := t.pend
+	if !(o.kind == opSpawn || o.kind == opWGAdd && o.delta > 0) {
+		t.symClean = false
+	}
+	if tr.partner != nil {
+		tr.partner.symClean = false
+	}
 	st := Step{Thread: t.id, Partner: -1, Op: o.kind.String(), Obj: -1, Pos: o.pos}
 	obj := o.obj
 	write := true
@@ -896,7 +966,7 @@ func (x *exec) apply(tr trans) {
 	case opSpawn:
 		c := o.target
 		c.id = len(x.threads)
-		c.hash = mix(t.hash, 0x5a, uint64(t.steps))
+		c.hash, c.sym = x.childHash(t, o, true)
 		c.vc = t.vc.clone()
 		c.vc.tick(c.id)
 		x.threads = append(x.threads, c)
@@ -963,7 +1033,7 @@ func (x *exec) apply(tr trans) {
 				obj.mutex.owner = nil
 			}
 			obj.mutex.vc.join(t.vc)
-			obj.mutex.hash = mix(obj.mutex.hash, uint64(t.id), t.hash)
+			obj.mutex.hash = mix(obj.mutex.hash, x.tid(t), t.hash)
 		}
 	case opCondWake:
 		t.vc.join(t.sigVC)
@@ -1045,7 +1115,7 @@ func (x *exec) apply(tr trans) {
 			} else {
 				t.hash = mix(t.hash, uint64(o.kind), obj.hash, uint64(ans+7), strHash(o.label))
 				if write {
-					obj.hash = mix(obj.hash, uint64(t.id), t.hash)
+					obj.hash = mix(obj.hash, x.tid(t), t.hash)
 				}
 			}
 			x.vcSync(t, o, obj, write)
@@ -1075,17 +1145,17 @@ func (x *exec) release(tr trans) {
 // followed by stateKey() would produce.  The explorer uses it to drop
 // alternatives that lead to an already visited state; every executed
 // transition re-validates the prediction against the real key.
-func (x *exec) predictKey(tr trans) uint64 {
+func (x *exec) predictKey(tr trans) (key uint64, last uint64) {
 	t := tr.t
 	o := t.pend
 	th := t.hash
 	var ph, child uint64
-	hasChild := false
+	hasChild, childSym := false, false
 	obj := o.obj
 	ans := 0
 	switch o.kind {
 	case opSpawn:
-		child = mix(t.hash, 0x5a, uint64(t.steps))
+		child, childSym = x.childHash(t, o, false)
 		hasChild = true
 	case opJoin:
 		if o.target != nil {
@@ -1135,17 +1205,33 @@ func (x *exec) predictKey(tr trans) uint64 {
 		case tr.partner:
 			h = ph
 		}
-		hs = append(hs, mix(h, uint64(u.id), d))
+		hs = append(hs, mix(h, x.tid(u), d))
 	}
 	if hasChild {
-		hs = append(hs, mix(child, uint64(len(x.threads)), 0))
+		id := uint64(len(x.threads))
+		if childSym {
+			id = 0xfffff
+		}
+		hs = append(hs, mix(child, id, 0))
 	}
 	sort.Slice(hs, func(i, j int) bool { return hs[i] < hs[j] })
 	faults := x.faults
 	if tr.fault {
 		faults++
 	}
-	return mix(uint64(faults)<<8|uint64(len(hs)), hs...)
+	last = uint64(t.id)
+	if t.sym {
+		last = th // an interchangeable worker is identified by what it has done
+	}
+	return mix(uint64(faults)<<8|uint64(len(hs)), hs...), last
+}
+
+// lastKey identifies the thread that moved last (part of the key when preemptions are bounded).
+func (x *exec) lastKey() uint64 {
+	if x.last.sym {
+		return x.last.hash
+	}
+	return uint64(x.last.id)
 }
 
 // stateKey is the happens-before state: the multiset of thread histories.
@@ -1156,7 +1242,7 @@ func (x *exec) stateKey() uint64 {
 		if t.done {
 			d = 1
 		}
-		hs = append(hs, mix(t.hash, uint64(t.id), d))
+		hs = append(hs, mix(t.hash, x.tid(t), d))
 	}
 	sort.Slice(hs, func(i, j int) bool { return hs[i] < hs[j] })
 	return mix(uint64(x.faults)<<8|uint64(len(hs)), hs...)
